@@ -9,8 +9,6 @@ import Fundraising.Proofs.Tie.Genesis
 namespace Fundraising
 open Fundraising.Gen Fundraising.Go
 
-/-- the model's state as a store -/
-def storeOf (s : Core) : GStore := { params := s.params, seq := s.views.length, views := s.views }
 
 theorem foldl_walk1 (l : List AllowedArg) (g : GenesisG) :
     List.foldl (fun s v => ExportGenesis.walk1 v s) g l = { g with allowed := g.allowed ++ l } := by
